@@ -65,18 +65,18 @@ Definition obs_ok (r : state * option err) (ob : obs) : bool :=
       list_eqb Z.eqb (sortZ (map fst (subs s))) (o_alive ob)
   end.
 
-Inductive tcase := T (id : Z) (e : event) (ob : obs) (kids : list tcase).
+Inductive tcase := T (id : Z) (e : ievent) (ob : obs) (kids : list tcase).
 
-Fixpoint bad_t (s : state) (t : tcase) : list Z :=
+Fixpoint bad_t (pm : pmap) (s : state) (t : tcase) : list Z :=
   match t with
   | T id e ob kids =>
-      let r := step s e in
+      let r := step s (lower pm e) in
       if obs_ok r ob
       then match snd r with
-           | None => flat_map (bad_t (fst r)) kids
+           | None => flat_map (bad_t pm (fst r)) kids
            | Some _ => []                      (* the run ends at a fault *)
            end
       else [id]
   end.
 
-Definition failing (nd : Z) (n : nat) (ts : list tcase) : list Z := flat_map (bad_t (init_state nd n)) ts.
+Definition failing (pm : pmap) (nd : Z) (n : nat) (ts : list tcase) : list Z := flat_map (bad_t pm (init_state nd n)) ts.
